@@ -46,6 +46,11 @@ def smap_case(draw):
             called = draw(st.one_of(st.none(), st.tuples(_file, _small, _small).map(list)))
             ret = draw(st.one_of(st.none(), st.integers(1, 70)))
             params = draw(st.dictionaries(_name, st.one_of(st.integers(-1000, 1000), _text), max_size=3))
+            if macro and draw(st.integers(0, 3)) == 0:
+                # the same parameter names and values as an earlier entry (ops of one expansion share them; two
+                # macros may take the same names in another order): same items, drawn key order
+                prev = macro[draw(st.integers(0, len(macro) - 1))][7]
+                params = dict(draw(st.permutations(list(prev.items())))) if prev else params
             macro.append([o, draw(_file), draw(_name), draw(_small), draw(_small), called, ret, params])
     pos = draw(st.lists(_pos_mark(), max_size=3))
     mpos = draw(st.lists(st.tuples(_file, _name, _pos_mark()).map(list), max_size=3))
